@@ -72,6 +72,13 @@ CHECKS.update({
    technique="Coq proof of the literal binary searches + probe-sequence correspondence + exhaustive comparison-failure injection",
    ref="DESIGN.md section 6 C14"),
 })
+CHECKS.update({
+ "C15": dict(
+   text="Theorems C15_next_total / C15_iteration_never_oob (on a leaf store mutated ARBITRARILY between steps -- leaves shrunk, emptied, unlinked but kept alive by the iterator's reference -- every step of the C iterator yields an element of the leaf it is parked on, ends the iteration or raises RuntimeError; it never reads outside a vector or through a dead pointer) and C15_seek_in_bounds (the lazy sequence reads an entry only after validating the computed position against the leaf's current size). The harness runs interleavings of iterator steps / indexings with inserts, deletes, pop-min until leaves are emptied and unlinked, clear, on all four kinds, C and Python, in a child process: allowed outcome per step, final contents, _check(), check(); a crash is a failure.",
+   note="Partial: real memory safety of the C process is runtime behaviour the model cannot exhibit; the model states the bounds discipline of BTreeIter_next / BTreeItems_seek and the harness observes crashes. The Python generator-based iteration is covered by the harness only. Print Assumptions: closed.",
+   technique="Coq proof of the iterator's bounds discipline on arbitrarily mutated stores + interleaving exploration in a sacrificial child process",
+   ref="DESIGN.md section 6 C15"),
+})
 NOT_YET = {}
 
 def main():
@@ -99,7 +106,7 @@ def main():
         "setup_cmd": "./check setup",
         "hooks": {"guard": "BTREES_VERIF", "enable": "checks compile a scratch copy of /repo's working tree with gcc -DBTREES_VERIF=1 (harness/impl.py); setup.py passes the define only when BTREES_VERIF=1 is in the environment",
                   "baseline_off_cmd": "cd /repo && env -u BTREES_VERIF /venv/bin/python -m pytest -ra -q -p no:cacheprovider --timeout=900 --continue-on-collection-errors",
-                  "source_commits": [], "add_only": True},
+                  "source_commits": ["30bb2f0"], "add_only": True},
         "engines": [{"name": "coq-model+correspondence", "path": "coq/ harness/", "serves_properties": sorted(CHECKS),
                      "kind_free_text": "Coq 8.16.1 theorems about executable Gallina models; models tied to /repo's working tree by a translator (C19) or by a differential correspondence check evaluated with vm_compute"}],
         "checks": checks,
